@@ -188,10 +188,15 @@ def check_route(ctx, case):
         sel = flag or outext or named
     res.labels.add('route:%s%s%s%s' % ('lib' if lib else 'cli', '+f' if flag and not lib else '', '+o' if outext else '', '+virtual' if named != real and not lib else ''))
     res.nontrivial = sum(1 for x in (flag, outext, named != real) if x) >= 1
+    import random as _random
+    # the output file's format is named by its LAST extension; the name may hold more dots
+    ostem = _random.Random(json.dumps(case, sort_keys=True, default=str) + 'o').choice(['out', 'out', 'service.prod', 'result.v1.2', 'a.json', 'x.yaml.bak'])
+    if ostem != 'out' and outext:
+        res.labels.add('route:dotted-output-name')
     ops = [{'op': 'merge_file', 'path': inpath}, {'op': 'output', 'format': sel}]
     if lib:
         if outext:
-            ops.append({'op': 'to_file', 'path': os.path.join(d, 'libout.' + outext), 'format': ''})
+            ops.append({'op': 'to_file', 'path': os.path.join(d, 'lib' + ostem + '.' + outext), 'format': ''})
         else:
             ops.append({'op': 'to_writer', 'format': ''})
     resp = ctx.call(ops, res)
@@ -207,7 +212,7 @@ def check_route(ctx, case):
         if rs[2]['err']:
             ctx.cleanup_case(d)
             return res.violate('route', 'library output call failed: %s' % rs[2]['err'], case=case)
-        got = open(os.path.join(d, 'libout.' + outext), 'rb').read() if outext else out_bytes(rs[2])
+        got = open(os.path.join(d, 'lib' + ostem + '.' + outext), 'rb').read() if outext else out_bytes(rs[2])
     else:
         import random
         rr = random.Random(json.dumps(case, sort_keys=True, default=str))
@@ -216,9 +221,10 @@ def check_route(ctx, case):
         if flag:
             parts.append(rr.choice([['-f', flag], ['-f' + flag], ['--format=' + flag], ['--format', flag]]))
         if outext:
-            parts.append(rr.choice([['-o', 'out.' + outext], ['--output=out.' + outext], ['-oout.' + outext], ['--output', 'out.' + outext]]))
+            oname = ostem + '.' + outext
+            parts.append(rr.choice([['-o', oname], ['--output=' + oname], ['-o' + oname], ['--output', oname]]))
             if rr.random() < 0.4:
-                with open(os.path.join(d, 'out.' + outext), 'w') as f:     # an existing, longer file must be replaced completely
+                with open(os.path.join(d, oname), 'w') as f:     # an existing, longer file must be replaced completely
                     f.write('stale content that is longer than any output ' * 40)
         parts.append([rr.choice(['in.' + named, './in.' + named])])
         if rr.random() < 0.3:
@@ -243,7 +249,7 @@ def check_route(ctx, case):
             if r.out:
                 ctx.cleanup_case(d)
                 return res.violate('route', 'bkl -o also wrote to stdout', case=case)
-            got = open(os.path.join(d, 'out.' + outext), 'rb').read()
+            got = open(os.path.join(d, oname), 'rb').read()
         else:
             got = r.out
     ctx.cleanup_case(d)
